@@ -4,7 +4,9 @@
 (* A filter is a record [kind, ...]:                                        *)
 (*   none   [bs]                              NoneFilter / NoneFilterBlocked *)
 (*   unit   [bs, idx, val, msk, ign]          UnitFilter (bs = 1) / UnitFilterBlocked (bs >= 2) *)
-(*   slip   [bs, idx, nu]                     SlipFilter (bs >= 2)           *)
+(*   slip   [bs, idx, nu, vidx, vnu]          SlipFilter (bs >= 2); vidx/vnu = the *)
+(*                                            separate vertex-normal vector _nu of the object, which *)
+(*                                            no filter operation reads (it differs from idx/nu)     *)
 (*   mean   [bs, p, d, vol, mun, mud]         MeanFilter (bs = 1) / MeanFilterBlocked *)
 (*   chain  [bs, fs]  FilterChain<...>        sub-filters applied in order on the same vector *)
 (*   seq    [bs, fs, names] FilterSequence<.> the same, held in a deque of (name, filter)     *)
@@ -172,7 +174,7 @@ WellFormed(F, nb) ==
          /\ F.bs >= 2
          /\ \A t \in 1..Len(F.idx) : F.idx[t] \in 0..(nb - 1)
          /\ \A t \in 1..(Len(F.idx) - 1) : F.idx[t] < F.idx[t+1]
-         /\ Len(F.nu) = Len(F.idx) * F.bs
+         /\ Len(F.nu) = Len(F.idx) * F.bs /\ Len(F.vnu) = Len(F.vidx) * F.bs
          /\ \A t \in 1..Len(F.idx) : SlipSc(F, F.idx[t]) \in {1, 2, 4}    \* dyadic normals
     [] F.kind = "mean" ->
          \/ MeanEmpty(F) /\ Len(F.d) = 0
@@ -299,6 +301,41 @@ Det(n, A) == IF n = 0 THEN 1
              ELSE IF n = 1 THEN A[1][1]
              ELSE SumSeq([j \in 1..n |-> (IF j % 2 = 1 THEN 1 ELSE -1) * A[1][j] * Det(n - 1, Minor(n, A, j))])
 (***************************************************************************)
+(* Life-cycle operations of filter objects: clone (the content preserving   *)
+(* modes Deep, Weak, Shallow; both the returning and the in-place form),    *)
+(* convert (to the same and to other data/index types), move construction   *)
+(* and move assignment.  Each produces an object with the SAME VALUE -      *)
+(* every field is taken from the corresponding field of the source (for the *)
+(* slip filter: the filter vector from the filter vector, the vertex normal *)
+(* vector from the vertex normal vector; for the blocked unit filter also   *)
+(* the ignore_nans flag) - hence the same denotation for every operation.   *)
+(* (CloneMode::Layout / Allocate by definition do not carry the values.)    *)
+(***************************************************************************)
+LifeCycleOps == {"none", "clone_deep", "clone_weak", "clone_shallow", "clone_into", "convert_same", "convert_other", "move_ctor", "move_assign"}
+RECURSIVE CopyOf(_)
+CopyOf(F) ==
+  CASE F.kind = "none" -> [kind |-> "none", bs |-> F.bs]
+    [] F.kind = "unit" -> [kind |-> "unit", bs |-> F.bs, idx |-> F.idx, val |-> F.val, msk |-> F.msk, ign |-> F.ign]
+    [] F.kind = "slip" -> [kind |-> "slip", bs |-> F.bs, idx |-> F.idx, nu |-> F.nu, vidx |-> F.vidx, vnu |-> F.vnu]
+    [] F.kind = "mean" -> [kind |-> "mean", bs |-> F.bs, p |-> F.p, d |-> F.d, vol |-> F.vol, mun |-> F.mun, mud |-> F.mud]
+    [] F.kind = "chain" -> [kind |-> "chain", bs |-> F.bs, fs |-> [j \in 1..Len(F.fs) |-> CopyOf(F.fs[j])]]
+    [] F.kind = "seq"   -> [kind |-> "seq", bs |-> F.bs, fs |-> [j \in 1..Len(F.fs) |-> CopyOf(F.fs[j])], names |-> F.names]
+    [] IsTuple(F)       -> [kind |-> F.kind, fs |-> [j \in 1..Len(F.fs) |-> CopyOf(F.fs[j])]]
+LifeCycle(F, lc) == IF lc = "none" THEN F ELSE CopyOf(F)
+\* Which operations a filter object offers.  On the pinned tree MeanFilterBlocked::convert cannot be instantiated at
+\* all (it casts the Tiny::Vector volume to a scalar) and UnitFilterBlocked::convert from ANOTHER data/index type
+\* cannot either (it reads the private _ignore_nans of the other instantiation); the in-place clone(other, mode) of
+\* FilterChain, FilterSequence and PowerFilter cannot be instantiated with any sub-filter (they pass a filter vector
+\* resp. use operator-> on a filter).  These are compile-time defects, recorded in the report; the calls do not exist.
+RECURSIVE HasBlocked(_, _)
+HasBlocked(F, kind) == IF IsAtom(F) THEN F.kind = kind /\ F.bs >= 2 ELSE \E j \in 1..Len(F.fs) : HasBlocked(F.fs[j], kind)
+Offered(F, lc) ==
+  CASE lc \in {"convert_same", "convert_other"} /\ HasBlocked(F, "mean") -> FALSE
+    [] lc = "convert_other" /\ HasBlocked(F, "unit") -> FALSE
+    [] lc = "clone_into" -> IsAtom(F) \/ (F.kind = "tuple" /\ \A j \in 1..Len(F.fs) : IsAtom(F.fs[j]))
+    [] OTHER -> TRUE
+
+(***************************************************************************)
 (* Value palettes shared by the generators (FiltersVec, FiltersMat): small  *)
 (* integers; normals with |nu|^2 in {1,2,4}; mean volumes powers of two     *)
 (***************************************************************************)
@@ -318,8 +355,11 @@ UnitOf(bs, I, pal) ==
        ign |-> ign]
 SlipOf(bs, I, pal) ==
   LET idx == SetToSortSeq(I, <)
+      vidx == [t \in 1..Len(idx) |-> idx[t] + 1]        \* the vertex normals live on OTHER indices with OTHER values
   IN  [kind |-> "slip", bs |-> bs, idx |-> idx,
-       nu |-> [e \in 1..(Len(idx) * bs) |-> Nu(pal, bs, idx[BlkOf(e, bs) + 1])[CmpOf(e, bs)]]]
+       nu |-> [e \in 1..(Len(idx) * bs) |-> Nu(pal, bs, idx[BlkOf(e, bs) + 1])[CmpOf(e, bs)]],
+       vidx |-> vidx,
+       vnu |-> [e \in 1..(Len(idx) * bs) |-> Nu(pal + 1, bs, vidx[BlkOf(e, bs) + 1] + 2)[CmpOf(e, bs)]]]
 NextPow(s) == CHOOSE t \in {1, 2, 4, 8, 16, 32, 64} : t > s /\ \A u \in {1, 2, 4, 8, 16, 32, 64} : u > s => t <= u
 MeanEmptyF(bs) == [kind |-> "mean", bs |-> bs, p |-> <<>>, d |-> <<>>, vol |-> <<>>, mun |-> <<>>, mud |-> 1]
 MeanOf(nb, bs, pal) ==       \* nb >= 1; the last block of d is chosen such that p.d is a power of two
